@@ -284,11 +284,11 @@ def wire_to_coq(w):
 
 
 def pcase_to_coq(c):
-    return ("{| pc_id := %d; pc_wire := %s; pc_ch := %s; pc_print := %s; pc_fp := %s; pc_fps := %s; pc_fp_djb := %s; pc_doc := %s |}" % (
+    return ("{| pc_id := %d; pc_wire := %s; pc_ch := %s; pc_print := %s; pc_fp := %s; pc_fps := %s; pc_fp_djb := %s; pc_fps_djb := %s; pc_doc := %s |}" % (
         c["id"], wire_to_coq(c["wire"]),
         coq_list(["(%s, %s)" % (coq_bytes(unhex(h)), coq_u64(v)) for h, v in c.get("ch") or []]),
         coq_list(["(%d, %s)" % (r, "true" if p else "false") for r, p in (c.get("print") or [])]),
-        coq_u64(c["fp"]), coq_list([coq_u64(x) for x in c.get("fps") or []]), coq_u64(c["fp_djb"]), coq_bytes(unhex(c["doc"]))))
+        coq_u64(c["fp"]), coq_list([coq_u64(x) for x in c.get("fps") or []]), coq_u64(c["fp_djb"]), coq_list([coq_u64(x) for x in c.get("fps_djb") or []]), coq_bytes(unhex(c["doc"]))))
 
 
 def show_proto(c):
@@ -307,7 +307,7 @@ def show_proto(c):
         if it.get("objs"):
             it["objs"] = [[[dh(a), dh(b)] for a, b in o] for o in it["objs"]]
     return {"protocol": c["class"], "sent": w, "fingerprint": c["fp"], "fingerprints in other wire orders": c.get("fps"),
-            "fingerprint (Bernstein)": c["fp_djb"], "document": unhex(c["doc"]).decode("latin1")}
+            "fingerprint (Bernstein)": c["fp_djb"], "Bernstein fingerprints in other wire orders": c.get("fps_djb"), "document": unhex(c["doc"]).decode("latin1")}
 
 
 def run_protos(ck):
